@@ -194,8 +194,10 @@ class MustGuards:
             cn = callee_name(t)
             if cn is None:
                 continue
-            groups.setdefault(cn, []).append((b, t))
-        for cn, sites in groups.items():
+            # conversion traits forward to different impls depending on their type arguments
+            targs = tuple(t["fn"].get("targs", [])) if cn.startswith("core::convert::") else ()
+            groups.setdefault((cn, targs), []).append((b, t))
+        for (cn, _targs), sites in groups.items():
             cands, precise = self.prog.resolve_call(sites[0][1])
             cands = [c for c in cands if c.crate not in self.skip_crates and c.kind != "closure"]
             props = []
